@@ -78,6 +78,13 @@ def bigintsContainsSorted (n : Int) (xs : List Int) : Bool := P.Helpers.contains
 /-- `new(big.Int).Sqrt(x)`: floor of the square root; panics when `x` is negative -/
 def bSqrt (x : Int) : Option Int := if x < 0 then none else some (Int.ofNat (Nat.sqrt x.toNat))
 
+/-- `x.IsUint64()` -/
+def bIsUint64 (x : Int) : Bool := decide (0 ≤ x) && decide (x < 2 ^ 64)
+
+/-- `uint(x.Uint64())`: `Uint64` of a value outside `[0, 2^64)` is undefined in math/big; the translated code
+    checks `IsUint64` first, and a value outside the range is refused here instead of being truncated -/
+def goUint64 (x : Int) : Option Nat := if 0 ≤ x ∧ x < 2 ^ 64 then some x.toNat else none
+
 /-- `new(big.Int).Mul(x, y)` -/
 def bMul (x y : Int) : Int := x * y
 
